@@ -8,10 +8,10 @@ REQ = ['Inst.Instance', 'Text.Import', 'Text.Render', 'Corr.C10Corr']
 
 def gen_files(ctx, label, n):
     rng = ctx.rng(label)
-    bases = [1000, 1024] + ([4096, 10000] if n > 1000 else [])
+    bases = [1000, 1024] + ([2048, 1536] if n > 1000 else [])
     for k in range(n):
         if k % 60 == 30 and (k // 60) < 2 * len(bases):
-            # more than 1000 / 1024 (thorough: 4096 / 10000) agents on one side, ids just above the base in the lists
+            # more than 1000 / 1024 (thorough: 2048 / 1536) agents on one side, ids just above the base in the lists
             j = k // 60
             ast = instgen.gen_ast_large(rng, bases[j // 2], side=1 + j % 2)
         elif k % 7 == 6:
